@@ -10,6 +10,13 @@
 extern "C" void __asan_on_error() {
   vf::dump_partial();
 }
+// det mode: hook points in the library only count (single thread, nothing to perturb)
+namespace vf {
+inline unsigned long g_hook_hits = 0;
+}
+extern "C" void unifex_verif_point(unsigned) noexcept {
+  ++vf::g_hook_hits;
+}
 
 namespace vf {
 
